@@ -208,7 +208,9 @@ pub fn shard_run(prop: &str, tier: &str, seed: u64, replay: Option<&serde_json::
                     match lin {
                         Lin::Ok(p) => {
                             cov.count("linearizable_executions", 1);
-                            if cov.samples.len() < 3 && overlapped {
+                            let interesting = overlapped && o.abs.iter().any(|a| a.starts_with("AddOk") || a.starts_with("snap-ok")) && o.abs.iter().any(|a| a.starts_with("Conflict") || a.starts_with("Snap(") || a.starts_with("Found") || a.starts_with("not-found"));
+                            let fresh_scn = !cov.samples.iter().any(|s| s["scenario"].as_str() == Some(scn.name.as_str()));
+                            if cov.samples.len() < 3 && interesting && fresh_scn {
                                 cov.samples.push(json!({"scenario": scn.name, "responses": o.abs, "final_state": o.state, "linearization": format!("{p:?}"), "schedule": o.trace.iter().map(|(_, w, p)| format!("w{w}:{p:?}")).collect::<Vec<_>>()}));
                             }
                         }
